@@ -259,7 +259,11 @@ func RunPipeline(seed int64, tier, driver, outDir string, n int, search bool, co
 	for i := 0; i < nm+nn; i++ {
 		var fails []string
 		var line string
-		if i < nm {
+		if i < nm && i%6 == 4 {
+			fails, line = BindAnyScenario(seed*1000003 + int64(i))
+		} else if i < nm && i%6 == 5 {
+			fails, line = BusyTargetScenario(seed*1000003 + int64(i))
+		} else if i < nm {
 			fails, line = MultiBindScenario(seed*1000003 + int64(i))
 		} else {
 			fails, line = NetmachScenario(seed*1000003 + int64(i))
@@ -278,7 +282,7 @@ func RunPipeline(seed int64, tier, driver, outDir string, n int, search bool, co
 	res.Evaluations += Multi.Steps + Multi.NetOverlaps
 	res.Extra = map[string]any{"forked_deliveries": forked, "sync_deliveries": synced, "flat_skipped": skipped,
 		"multi_binding_scenarios": Multi.Scenarios, "multi_binding_steps": Multi.Steps, "netmach_target_scenarios": Multi.NetScenarios,
-		"netmach_overlapping_toggles": Multi.NetOverlaps}
+		"netmach_overlapping_toggles": Multi.NetOverlaps, "busy_target_scenarios": Multi.BusyScenarios, "bindany_scenarios": Multi.AnyScenarios}
 	res.WallS = time.Since(t0).Seconds()
 	return res
 }
